@@ -27,6 +27,7 @@ import (
 	skyway "github.com/palomachain/paloma/v2/x/skyway"
 	"github.com/palomachain/paloma/v2/x/skyway/keeper"
 	"github.com/palomachain/paloma/v2/x/skyway/types"
+	evmtypes "github.com/palomachain/paloma/v2/x/evm/types"
 	valsettypes "github.com/palomachain/paloma/v2/x/valset/types"
 )
 
@@ -63,6 +64,8 @@ type bhist struct {
 	orchIdx map[string]int64
 	regAddr []string          // lower-case hex address registered now
 	stranger sdk.AccAddress   // an account that is no validator (model id strangerID, never given a status)
+	scID     uint64           // id of the chain's active compass contract
+	dead     bool             // the history ended (a redeploy left open batches behind: known finding on trees without the fix)
 	regAt   map[string]string // "<nonce>/<val>" -> address registered when the confirmation was accepted
 	steps   []string
 	replay  []map[string]any
@@ -139,6 +142,7 @@ func newBHistN(t *testing.T, run *emit.Run, extra int) *bhist {
 		t.Fatal(err)
 	}
 	h.tid = string(ci.SmartContractUniqueID)
+	h.scID = ci.ActiveSmartContractID
 	// what SetupFiveValChain registered, as the first model steps
 	for v := 0; v < 5; v++ {
 		infos, err := in.ValsetKeeper.GetValidatorChainInfos(ctx, keeper.ValAddrs[v])
@@ -722,6 +726,76 @@ func (h *bhist) registerAs(v, key int, written string) {
 		map[string]any{"op": "register", "validator": v, "key": key, "address": written})
 }
 
+// redeployRefreshes: does the tree under test renew the open batches of a chain when the chain's compass changes?  Probed
+// by the scripted scenario at the start of the run (corpus batch_compass_redeploy.json); random histories contain compass
+// redeploys only if it does (without the renewal the first redeploy over an open batch ends the history with the known finding).
+var redeployRefreshes bool
+
+// opRedeploy: a new compass is activated for the chain (evm ActivateChainReferenceID, as the attestation of an uploaded
+// compass does); sameID: the new deployment reports the compass id the chain already has.  The checkpoint of a batch covers
+// the compass id and ConfirmBatch verifies against the id of the CURRENT compass: what the module did to the open batches
+// is read back and given to the model as BRebody steps (new body, confirmations dropped).
+func (h *bhist) opRedeploy(sameID bool) {
+	newTid := h.tid
+	h.scID++
+	if !sameID {
+		newTid = fmt.Sprintf("compass-%d-%s", h.scID, chainName)
+	}
+	if err := h.in.EvmKeeper.ActivateChainReferenceID(h.ctx, chainName, &evmtypes.SmartContract{Id: h.scID}, "0x5A3E98aA540B2C3545E1DbA2D5e8B3e3e8bD3c7e", []byte(newTid)); err != nil {
+		h.t.Fatalf("ActivateChainReferenceID: %v", err)
+	}
+	ci, err := h.in.EvmKeeper.GetChainInfo(h.ctx, chainName)
+	if err != nil || string(ci.SmartContractUniqueID) != newTid {
+		h.t.Fatalf("compass id after activation: %q %v", ci.GetSmartContractUniqueID(), err)
+	}
+	h.tid = newTid
+	how := "compass-redeploy"
+	if sameID {
+		how = "compass-reactivated-same-id"
+	}
+	h.run.Count("op", how)
+	var changed []uint64
+	stale, kept := uint64(0), 0
+	for _, n := range h.nonces {
+		b := h.stored(n)
+		if b == nil {
+			continue
+		}
+		cp, err := b.GetCheckpoint(h.tid)
+		if err != nil {
+			h.t.Fatal(err)
+		}
+		if hex.EncodeToString(cp) != hex.EncodeToString(b.BytesToSign) {
+			stale = n
+			cs, _ := h.in.SkywayKeeper.GetBatchConfirmByNonceAndTokenContract(h.ctx, n, *h.token)
+			kept += len(cs)
+		}
+		if vs := h.vers[n]; len(vs) > 0 && vs[len(vs)-1].coq != h.versionOf(b).coq {
+			changed = append(changed, n)
+		}
+	}
+	if stale != 0 {
+		h.run.Count("redeploy-effect", "open batches left with the old compass id")
+		h.replay = append(h.replay, map[string]any{"op": how, "compass_id": newTid})
+		h.violate("C06:compass-redeploy-keeps-open-batch-confirms", fmt.Sprintf("after %s: batch %d still stores the bytes to sign of the previous compass (ConfirmBatch now verifies against the checkpoint with compass id %q) and the open batches keep %d confirmation(s) that do not verify against it", how, stale, newTid, kept))
+		h.dead = true
+		return
+	}
+	if len(changed) == 0 {
+		h.run.Count("redeploy-effect", "nothing")
+		h.replay = append(h.replay, map[string]any{"op": how, "compass_id": newTid})
+		h.observe(how)
+		return
+	}
+	for i, n := range changed {
+		h.run.Count("redeploy-effect", "open batch renewed")
+		op := fmt.Sprintf("C06.BRbd %d 1 %d", n, idOf(h.bodyIDs, bodyOf(h.stored(n), h.tid)))
+		rep := map[string]any{"op": how + " -> batch renewed", "compass_id": newTid, "nonce": n}
+		h.stepObs(op, 0, rep, i+1 == len(changed))
+	}
+	h.noteVersions()
+}
+
 func (h *bhist) finish() {
 	h.run.Case("C06.CBatch "+emit.List(h.steps), h.okOps > 0 && h.rejOps > 0, map[string]any{"part": "batch", "steps": len(h.steps)})
 }
@@ -750,14 +824,20 @@ func runBatchHistory(t *testing.T, run *emit.Run) *bhist {
 	r := run.Rng
 	h.opBuild()
 	n := 12 + r.Intn(14)
-	for i := 0; i < n; i++ {
+	for i := 0; i < n && !h.dead; i++ {
 		switch k := r.Intn(100); {
 		case k < 10:
 			h.opBuild()
-		case k < 57:
+		case k < 55:
 			h.opConfirm()
-		case k < 60:
+		case k < 58:
 			h.opSetStatus(r.Intn(len(h.accs)), []int64{3, 3, 2, 1}[r.Intn(4)])
+		case k < 60:
+			if redeployRefreshes {
+				h.opRedeploy(r.Intn(4) == 0)
+			} else {
+				h.opConfirm()
+			}
 		case k < 70:
 			h.opEstimate()
 		case k < 80:
